@@ -7,7 +7,7 @@ Model of `Computable` / `Computed` (mesa_signal.py) on top of the Signals regist
 * a Computed's function is a *read tree*: what it returns depends only on what it reads, in
   the order it reads it; `write` nodes are the assignments a function may perform (cycle detection);
 * `Computed.__call__`, `Computable.__get__`, `Observable.__set__`, `_set_dirty`, `_add_parent`,
-  `_remove_parents` follow the repaired code (G4, G8, G9, G10 repaired; G7 open: `Observable.__set__`
+  `_remove_parents` follow the repaired code (G4, G8, G9, G10, G11, G12 repaired; G7 open: `Observable.__set__`
   notifies before it stores, and a user handler may read Computables while being notified);
 * `proc` = `PROCESSING_SIGNALS` (what the evaluating functions have read) grows over one outermost evaluation,
   nested ones included, and is cleared when `depth` = `EVALUATION_DEPTH` returns to 0 (G10 repaired: no
@@ -27,6 +27,7 @@ inductive Tree where
   | read (k : Key) (cont : Int → Tree)
   | readC (c : Nat) (cont : Int → Tree)
   | write (k : Key) (v : Int) (next : Tree)
+  | fail                                    -- the function raises (an exception of its own, `Err.user`)
 
 /-- what a Computed remembers a value for: an Observable, or another Computable -/
 inductive PRef where
@@ -160,8 +161,11 @@ def evalTree (rec : Rec) : Tree → St → Option (St × R)
     | none => none
     | some (s1, .err e) => some (s1, .err e)
     | some (s1, .ok _) => evalTree rec next s1
+  | .fail, s => some (s, .err .user)
 
-/-- the dirty pre-check of `Computed.__call__`: `true` = some remembered value differs (early exit) -/
+/-- the dirty pre-check of `Computed.__call__`: `true` = some remembered value differs (early exit); a remembered
+    Computable that raises now counts as changed (G12 repaired: the exception is not passed on, the function decides
+    whether it still reads that Computable) -/
 def precheck (rec : Rec) : List (PRef × Int) → St → Option (St × Except Err Bool)
   | [], s => some (s, .ok false)
   | (.obs k, v) :: rest, s =>
@@ -169,8 +173,7 @@ def precheck (rec : Rec) : List (PRef × Int) → St → Option (St × Except Er
   | (.comp c, v) :: rest, s =>
     match rec (.readC c) s with
     | none => none
-    | some (s1, .err .noneVal) => some (s1, .ok true)      -- `None != v`
-    | some (s1, .err e) => some (s1, .error e)
+    | some (s1, .err _) => some (s1, .ok true)      -- it raised (or, `noneVal`: `None != v`)
     | some (s1, .ok v') => if v' ≠ v then some (s1, .ok true) else precheck rec rest s1
 
 /-- what a user handler does after recording: read Computables -/
@@ -232,8 +235,16 @@ def assignT (rec : Rec) (k : Key) (v : Int) (s : St) : Option (St × R) :=
 def leave (saved : Option Nat) (s : St) : St :=
   { s with cur := saved, depth := s.depth - 1, proc := if s.depth - 1 = 0 then [] else s.proc }
 
+/-- the `except` of an evaluation (G11 repaired): nothing was computed, so the next read runs the function again
+    (`_first = True`) instead of re-validating the value cached before the failure -/
+def markFailed (s : St) (c : Nat) : St :=
+  match s.comps c with
+  | none => s
+  | some x => s.setComp c { x with first := true }
+
 /-- the re-evaluation branch of `Computed.__call__`: forget the parents, run the function with
-    `CURRENT_COMPUTED = c` and `EVALUATION_DEPTH + 1` (both restored in `finally`), store the value, become clean -/
+    `CURRENT_COMPUTED = c` and `EVALUATION_DEPTH + 1` (both restored in `finally`), store the value, become clean;
+    if the function raises: `markFailed` -/
 def evalBody (rec : Rec) (c : Nat) (tree : Tree) (saved : Option Nat) (s1 : St) : Option (St × R) :=
   let s2 := removeParents s1 c
   match s2.comps c with
@@ -242,7 +253,7 @@ def evalBody (rec : Rec) (c : Nat) (tree : Tree) (saved : Option Nat) (s1 : St) 
     let s3 := { (s2.setComp c { x2 with evals := x2.evals + 1 }) with cur := some c, depth := s2.depth + 1 }
     match evalTree rec tree s3 with
     | none => none
-    | some (s4, .err e) => some (leave saved s4, .err e)
+    | some (s4, .err e) => some (leave saved (markFailed s4 c), .err e)
     | some (s4, .ok v) =>
       match s4.comps c with
       | none => some (leave saved s4, .err .attr)
